@@ -307,7 +307,7 @@ func (c *Class) Evaluation(
 	}
 
 	// set defined class
-	base.SetDefinedClass(nextFrame, class)
+	base.SetSourceDefinedClass(nextFrame, class)
 
 	return nil
 }
